@@ -64,14 +64,23 @@ func hasAndOr(sql string) bool {
 	return false
 }
 
-// needsParentheses reports whether a raw SQL expression has to be wrapped in
-// parentheses before it is combined with other conditions.
+// needsParentheses reports whether a condition is raw SQL containing AND/OR
+// and therefore has to be wrapped in parentheses before it is combined with
+// other conditions; an And/Or with a single member builds just that member.
 func needsParentheses(expr Expression) bool {
 	switch v := expr.(type) {
 	case Expr:
 		return hasAndOr(v.SQL)
 	case NamedExpr:
 		return hasAndOr(v.SQL)
+	case OrConditions:
+		if len(v.Exprs) == 1 {
+			return needsParentheses(v.Exprs[0])
+		}
+	case AndConditions:
+		if len(v.Exprs) == 1 {
+			return needsParentheses(v.Exprs[0])
+		}
 	}
 	return false
 }
@@ -89,18 +98,7 @@ func buildExprs(exprs []Expression, builder Builder, joinCond string) {
 		}
 
 		if len(exprs) > 1 {
-			switch v := expr.(type) {
-			case OrConditions:
-				if len(v.Exprs) == 1 {
-					wrapInParentheses = needsParentheses(v.Exprs[0])
-				}
-			case AndConditions:
-				if len(v.Exprs) == 1 {
-					wrapInParentheses = needsParentheses(v.Exprs[0])
-				}
-			case Expr, NamedExpr:
-				wrapInParentheses = needsParentheses(v)
-			}
+			wrapInParentheses = needsParentheses(expr)
 		}
 
 		if wrapInParentheses {
@@ -238,22 +236,9 @@ func (not NotConditions) Build(builder Builder) {
 	}
 }
 
-// buildWrapped builds a single condition, in parentheses when it is raw SQL
-// containing AND/OR, also when that raw SQL is the only member of an And/Or.
+// buildWrapped builds a single condition, in parentheses when needed.
 func buildWrapped(c Expression, builder Builder) {
-	wrapInParentheses := needsParentheses(c)
-	switch v := c.(type) {
-	case OrConditions:
-		if len(v.Exprs) == 1 {
-			wrapInParentheses = needsParentheses(v.Exprs[0])
-		}
-	case AndConditions:
-		if len(v.Exprs) == 1 {
-			wrapInParentheses = needsParentheses(v.Exprs[0])
-		}
-	}
-
-	if wrapInParentheses {
+	if needsParentheses(c) {
 		builder.WriteByte('(')
 		c.Build(builder)
 		builder.WriteByte(')')
